@@ -52,16 +52,22 @@ CHECKS = {
                  TargetOps=['delete_cell', 'collect_garbage'], q=3),
         ],
         thorough=[
-            dict(name='collapse', Depth=3, SeedIds=[1, 2, 3, 4, 5, 6, 7, 8, 9, 10],
-                 HistOps=['collapse_edge', 'delete_cell', 'delete_vertex', 'collect_garbage'],
-                 TargetOps=['collapse_edge', 'collect_garbage', 'delete_face', 'delete_edge'], q=1, sample=60000),
-            dict(name='additions', Depth=2, SeedIds=[1, 2, 5, 8], Modes='ModesAll', HistOps=['delete_cell', 'delete_face', 'collapse_edge'],
+            dict(name='collapse-2', Depth=2, SeedIds=[1, 2, 3, 4, 5, 6, 7, 8, 9, 10],
+                 HistOps=['collapse_edge', 'delete_cell', 'delete_vertex', 'delete_face', 'collect_garbage'],
+                 TargetOps=['collapse_edge', 'collect_garbage'], q=1),
+            dict(name='collapse-3', Depth=3, SeedIds=[2, 3, 5, 6, 8, 9],
+                 HistOps=['collapse_edge', 'delete_cell'],
+                 TargetOps=['collapse_edge'], q=1, sample=15000),
+            dict(name='additions', Depth=1, SeedIds=[1, 2, 5, 8], Modes='ModesAll', HistOps=[],
                  TargetOps=['add_face3', 'add_face_v3', 'add_cell4', 'tet_add_cell_4', 'tet_add_cell_v', 'tet_add_cell_v_taken', 'tet_add_cell_new'],
-                 q=1, sample=30000),
+                 q=1, sample=12000),
+            dict(name='additions-2', Depth=2, SeedIds=[2, 5, 8], Modes='ModesDefault', HistOps=['delete_cell', 'collapse_edge'],
+                 TargetOps=['add_cell4', 'tet_add_cell_4', 'tet_add_cell_v', 'tet_add_cell_v_taken', 'tet_add_cell_new'],
+                 q=1, sample=8000),
             dict(name='splits', Depth=3, SeedIds=[1, 2, 3, 5, 6], Modes='ModesAll', HistOps=['add_vertex', 'split_edge', 'split_face'],
-                 TargetOps=['split_edge', 'split_face', 'collapse_edge', 'collect_garbage'], q=1, sample=20000),
+                 TargetOps=['split_edge', 'split_face', 'collapse_edge', 'collect_garbage'], q=1, sample=8000),
             dict(name='labels', Depth=2, SeedIds=[1, 2, 3, 4, 5, 6, 7, 8, 9, 10], Modes='ModesAll', HistOps=['collapse_edge', 'delete_cell'],
-                 TargetOps=['delete_cell', 'collect_garbage', 'collapse_edge'], q=3, sample=400),
+                 TargetOps=['delete_cell', 'collect_garbage', 'collapse_edge'], q=3, sample=300),
         ],
         sim=dict(quick=dict(SeedIds=[21, 7, 9, 10], num=24, depth=14),
                  thorough=dict(SeedIds=[21, 22, 23, 7, 9, 10], num=320, depth=40),
